@@ -404,6 +404,35 @@ func flows() []flow {
 					return "node-credentials-not-persisted", fmt.Sprintf("HandleFetchNodeCredentialsResponse reported success but the credentials do not load back equal (%v)", lerr)
 				}
 				return "", ""
+			}},
+		flow{name: "node-handle-response-token", nodeSide: true, setup: func(c *cx) {
+			// server-led: the node's credentials are created for an activation token
+			_, tok, err := registration.CreateServerLedActivationToken(bg, c.w.Store, &types.ServerLedRegistrationRequest{}, c.w.O()...)
+			must(err)
+			c.token = tok
+			creds, err := types.NewNodeCredentials(bg, c.nodeSt, c.w.O(nodeenrollment.WithActivationToken(tok))...)
+			must(err)
+			c.actor = &vkit.Actor{Creds: creds}
+			vkit.FillActor(c.actor)
+			c.fetchRsp, err = registration.FetchNodeCredentials(bg, c.w.Store, c.actor.Request(nodeenrollment.WithActivationToken(tok)), c.w.O()...)
+			must(err)
+		},
+			run: func(c *cx) (err error) {
+				c.creds, err = c.actor.Creds.HandleFetchNodeCredentialsResponse(bg, c.nodeSt, c.fetchRsp, c.w.O(nodeenrollment.WithActivationToken(c.token))...)
+				return
+			},
+			verify: func(c *cx, err error) (string, string) {
+				if err != nil {
+					if c.creds != nil {
+						return "node-credentials-with-error", "an error was returned together with node credentials"
+					}
+					return "", ""
+				}
+				l, lerr := types.LoadNodeCredentials(bg, c.nodeSt.Inner, nodeenrollment.CurrentId, c.w.O()...)
+				if lerr != nil || !proto.Equal(l, c.creds) || len(l.CertificateBundles) != 2 {
+					return "node-credentials-not-persisted", fmt.Sprintf("HandleFetchNodeCredentialsResponse reported success but the credentials do not load back equal (%v)", lerr)
+				}
+				return "", ""
 			}})
 	return fl
 }
@@ -456,6 +485,7 @@ func execute(f flow, wd world, plan faultPlan) (n int, key, what string, ops []s
 	if pv, stack := vkit.Guard(func() { rerr = f.run(c) }); pv != nil {
 		return recd.Count(), "panic", fmt.Sprintf("panic: %v\n%s", pv, stack), nil
 	}
+	lastRunErr = rerr
 	recd.Fault = nil
 	n = recd.Count()
 	for _, o := range recd.Log() {
@@ -497,8 +527,31 @@ func execute(f flow, wd world, plan faultPlan) (n int, key, what string, ops []s
 			}
 		}
 	}
+	// an application retries: the same call again, same in-memory values, no fault.
+	// Whatever it answers, a reported success must again be fully reflected in storage
+	// (state left behind by the failed attempt must not let the retry skip persisting).
+	if rerr != nil && (len(plan.positions) > 0 || plan.byKind != "") {
+		var rerr2 error
+		if pv, stack := vkit.Guard(func() { rerr2 = f.run(c) }); pv != nil {
+			return n, "panic-on-retry", fmt.Sprintf("panic in the retry after a failed call: %v\n%s", pv, stack), ops
+		}
+		if rerr2 == nil {
+			if k, wh := f.verify(c, nil); k != "" {
+				return n, "retry-after-failed-call/" + k, "the call failed on the injected fault, the SAME call was then retried without fault and reported success, but: " + wh, ops
+			}
+		}
+		after = w.Rec.Snapshot()
+		for _, k := range snapKeys {
+			if !bytes.Equal(before[k], after[k]) {
+				return n, "bystander-record-changed", fmt.Sprintf("record %s of another node/token was altered or removed by the retry (call error: %v)", strings.Split(k, "/")[0], rerr), ops
+			}
+		}
+	}
 	return n, "", "", ops
 }
+
+// lastRunErr is the error of the most recent (first-attempt) call made by execute.
+var lastRunErr error
 
 type faultCase struct {
 	Flow     string   `json:"flow"`
@@ -525,6 +578,12 @@ func TestEnum_SingleFaults(t *testing.T) {
 			if key != "" {
 				vkit.Violate(t, prop, "C13/"+f.name+"/clean-run/"+key, "without any fault: "+what, fc)
 				return
+			}
+			if lastRunErr != nil && f.name == "fetch-wrapped-existing-record" && wd.backend == vkit.StoreOnce {
+				// the store-once back end refuses the re-store of the existing record (DESIGN 10.2)
+				rec.Count("clean_runs_refused_by_store_once_backend", 1)
+			} else if lastRunErr != nil {
+				t.Fatalf("harness: flow %s fails without any fault in world %v: %v", f.name, wd, lastRunErr)
 			}
 			rec.Gauge("storage_ops_"+f.name+"_"+wd.backend.String()+fmt.Sprintf("_wrapper=%v", wd.wrapper), int64(n))
 			for pos := 1; pos <= n; pos++ {
